@@ -60,13 +60,8 @@ def select_events(events, tier, rng, want_phase, only_labels=None):
     return cuts
 
 
-def run_crash_property(pid, tier, seed, scen_list, want_phase, rule, floors, replay=None, level='fault_enumeration', assumptions=()):
-    rep = Report(pid, tier, seed, level)
-    if replay:
-        import json
-        case = json.load(open(replay))['witness']['case']
-        rep.absorb(run_cases(crash_child, [case], watchdog=600))
-        return rep.finish(rule=rule, min_distinct=0, assumptions=assumptions)
+def crash_cases(rep, tier, seed, scen_list, want_phase):
+    '''Dry-run the scenarios, enumerate/select durable events, return the crash cases (longest first).'''
     rng = random.Random(seed)
     dry = run_cases(dry_child, scen_list, watchdog=600)
     cases = []
@@ -89,6 +84,18 @@ def run_crash_property(pid, tier, seed, scen_list, want_phase, rule, floors, rep
             c = dict(sc)
             c.update({'crash_at': n, 'torn': torn, 'sample': len(cases) % 97 == 0})
             cases.append(c)
+    cases.sort(key=lambda c: -int(c.get('big_spend') or 0))     # longest first
+    return cases
+
+
+def run_crash_property(pid, tier, seed, scen_list, want_phase, rule, floors, replay=None, level='fault_enumeration', assumptions=()):
+    rep = Report(pid, tier, seed, level)
+    if replay:
+        import json
+        case = json.load(open(replay))['witness']['case']
+        rep.absorb(run_cases(crash_child, [case], watchdog=600))
+        return rep.finish(rule=rule, min_distinct=0, assumptions=assumptions)
+    cases = crash_cases(rep, tier, seed, scen_list, want_phase)
     rep.absorb(run_cases(crash_child, cases, watchdog=600), 'crash case')
     c = rep.counters
     for name, minimum in floors.items():
